@@ -1465,3 +1465,70 @@ Proof.
     - replace (0 + IZR k * 0) with 0 by ring. rewrite atom_diff_zero. apply is_derive_const_R. }
   exact (proj2 Hok).
 Qed.
+
+(* ---- the stacked-time Jacobian: cell (equation i, period j; spot) is the diff computed on the data of that period --- *)
+Local Close Scope R_scope.
+Local Open Scope nat_scope.
+
+Section StackedTd.
+Variable rho : token -> R.
+Variable lg : Z -> bool.
+Variable m : emap.
+Variable cte : list Z.
+
+Definition srow (t : tree RD) (tok : token) : list R :=
+  map (fun c => diff_of RD (eval_equation RD (shift_rho RD rho c) (ind RD tok) lg t)) cte.
+
+Lemma stacked_td_length : forall l : list (Z * tree RD),
+  List.length (stacked_td RD rho lg l m cte) = prefix_len m (map fst l).
+Proof.
+  induction l as [ | [e t] r IH]; [ reflexivity | ].
+  unfold stacked_td. cbn [flat_map map fst snd prefix_len]. rewrite app_length, map_length. f_equal. exact IH.
+Qed.
+
+Lemma stacked_td_nth : forall (l1 l2 : list (Z * tree RD)) eid t k tok,
+  nth_error (wrt_of m eid) k = Some tok ->
+  nth (prefix_len m (map fst l1) + k) (stacked_td RD rho lg (l1 ++ (eid, t) :: l2) m cte) [] = srow t tok.
+Proof.
+  intros l1 l2 eid t k tok Hk. unfold stacked_td. rewrite flat_map_app. cbn [flat_map fst snd].
+  assert (HA : List.length (flat_map (fun et : Z * tree RD =>
+                 map (fun tk => map (fun c => diff_of RD (eval_equation RD (shift_rho RD rho c) (ind RD tk) lg (snd et))) cte)
+                     (wrt_of m (fst et))) l1) = prefix_len m (map fst l1)) by (apply stacked_td_length).
+  rewrite app_nth2 by lia. rewrite HA.
+  replace (prefix_len m (map fst l1) + k - prefix_len m (map fst l1)) with k by lia.
+  assert (Hlt : k < List.length (wrt_of m eid)) by (apply nth_error_Some; congruence).
+  rewrite app_nth1 by (rewrite map_length; exact Hlt).
+  rewrite (nth_indep _ _ (srow t (0%Z, 0%Z))) by (rewrite map_length; exact Hlt).
+  unfold srow.
+  rewrite (map_nth (fun tk => map (fun c => diff_of RD (eval_equation RD (shift_rho RD rho c) (ind RD tk) lg t)) cte)).
+  apply nth_error_nth with (d := (0%Z, 0%Z)) in Hk. now rewrite Hk.
+Qed.
+End StackedTd.
+
+Lemma firstn_map_app : forall (l1 : list (Z * tree RD)) x l2,
+  firstn (List.length l1) (map fst (l1 ++ x :: l2)) = map fst l1.
+Proof.
+  intros l1 x l2. rewrite map_app. rewrite <- (map_length fst l1). rewrite firstn_app, Nat.sub_diag. simpl.
+  rewrite firstn_all. apply app_nil_r.
+Qed.
+
+Theorem stacked_jacobian_entry : forall rho lg (l1 l2 : list (Z * tree RD)) m spots cte eid t k tok j col c,
+  (forall e, In e (map fst (l1 ++ (eid, t) :: l2)) -> NoDup (wrt_of m e)) ->
+  nth_error (wrt_of m eid) k = Some tok -> nth_error cte j = Some col ->
+  col_of (some_columns spots) (shifted tok col) = Some c ->
+  cell (dofZ RD 0) (td2_of RD (stacked_td RD rho lg (l1 ++ (eid, t) :: l2) m cte))
+       (stacked_map (map fst (l1 ++ (eid, t) :: l2)) m spots cte)
+       (List.length l1 + List.length (map fst (l1 ++ (eid, t) :: l2)) * j) c
+  = diff_of RD (eval_equation RD (shift_rho RD rho col) (ind RD tok) lg t).
+Proof.
+  intros rho lg l1 l2 m spots cte eid t k tok j col c ND Hk Hj Hc.
+  assert (Hi : nth_error (map fst (l1 ++ (eid, t) :: l2)) (List.length l1) = Some eid).
+  { rewrite map_app. rewrite nth_error_app2 by (rewrite map_length; lia). rewrite map_length, Nat.sub_diag. reflexivity. }
+  rewrite (stacked_map_places _ _ _ m spots cte _ eid k tok j col c ND Hi Hk Hj Hc).
+  rewrite firstn_map_app. unfold td2_of.
+  rewrite (stacked_td_nth rho lg m cte l1 l2 eid t k tok Hk). unfold srow.
+  assert (Hjl : j < List.length cte) by (apply nth_error_Some; congruence).
+  rewrite (nth_indep _ _ (diff_of RD (eval_equation RD (shift_rho RD rho 0%Z) (ind RD tok) lg t))) by (rewrite map_length; exact Hjl).
+  rewrite (map_nth (fun c0 => diff_of RD (eval_equation RD (shift_rho RD rho c0) (ind RD tok) lg t))).
+  apply nth_error_nth with (d := 0%Z) in Hj. now rewrite Hj.
+Qed.
